@@ -407,4 +407,190 @@ inductive Reachable (c : Cfg) (h : Heap) (roots : List Word) : Addr → Prop
   | root {a} : a ∈ roots → (h.lookup a).isSome = true → Reachable c h roots a
   | step {a b} : Reachable c h roots a → Points c h a b → (h.lookup b).isSome = true → Reachable c h roots b
 
+/-! ### the mark bits are part of the collector's state
+
+  `marked` is a field of `struct GCEntry`.  It is set by `GC_Mark_Item` / the root loop of `GC_Mark`, cleared by the second
+  loop of `GC_Sweep`, and a new entry starts with it clear (`GC_Set_Ptr`: `{ ptr, ihash, root, 0 }` — also on every
+  re-insertion by `GC_Rehash`).  `GC_Set` runs `GC_Mark(gc); GC_Sweep(gc);`: when an exception leaves the mark phase
+  (a Mark instance that throws; `type_of` on a block freed by hand, KF-C01-dangling-tuple-item) the sweep does not run and
+  the bits set so far STAY.  The next mark phase starts from them: the root loop skips marked entries and `GC_Mark_Item`
+  traces an entry only when it finds it unmarked. -/
+
+section marks
+variable {σ : Type} (S : MarkSet σ)
+
+/-- the mark bits in which exactly the entries listed in `stale` are set -/
+def seed (stale : List Addr) : σ := stale.foldr S.insert S.empty
+
+/-- **`GC_Mark` on a registry whose bits `m0` are already set**: the same three phases, starting from `m0` -/
+def gcMarkFrom (c : Cfg) (h : Heap) (thread : Obj) (stack : List Word) (m0 : σ) : σ :=
+  let m1 := dfs S c h (tlsWords c thread) m0
+  let m2 := dfs S c h (rootAddrs h) m1
+  dfs S c h stack m2
+
+/-- `GC_Mark(gc); GC_Sweep(gc);` on a registry whose bits `m0` are already set (mark and unlink phases of the sweep) -/
+def collectFrom (c : Cfg) (h : Heap) (thread : Obj) (stack : List Word) (m0 : σ) : Heap × List Addr :=
+  sweep S h (gcMarkFrom S c h thread stack m0)
+
+end marks
+
+/-- the marking events of a mark phase that starts with the entries `stale` marked, oldest first (with the bits kept as
+    the list of marking events, `dfs listSet` returns the newest event first and `stale` at the end; the worklist visits
+    words in the order of the C recursion, `C01_rec_agrees`) -/
+def markEvents (c : Cfg) (h : Heap) (thread : Obj) (stack : List Word) (stale : List Addr) : List Addr :=
+  let l := gcMarkFrom listSet c h thread stack stale
+  (l.take (l.length - stale.length)).reverse
+
+/-! ### the release loop of `GC_Sweep`: destructors
+
+  After the unmarked entries have left the registry for `gc->freelist` and the mark bits have been cleared, `GC_Sweep` runs
+  `dealloc(destruct(item))` for every item still on the list.  `Box_Del` is `if (obj) { del(obj); }`: `del` → `GC_Rem` →
+  `GC_Rem_Ptr`, which finalises the target if it finds it on the free list (striking it) or IN THE REGISTRY (erasing the
+  entry) — a Box owns its target.  The destructors of Array, List, Table and Tree `destruct` every embedded element, key and
+  value, so an embedded Box deletes its target in the same way.  `Tuple_Del` frees the pointer array only. -/
+
+mutual
+/-- the pointers the destructor of an object hands to `del` -/
+def owns : Obj → List Word
+  | .raw ty ws => if ty = "Box" then (ws.take 1).filter (· ≠ 0) else []
+  | .cont _ es => ownsL es
+  | .tup _ _ => []
+  | .thr _ _ => []
+def ownsL : List Obj → List Word
+  | [] => []
+  | o :: os => owns o ++ ownsL os
+end
+
+def Heap.ownsAt (h : Heap) (a : Addr) : List Word :=
+  match h.lookup a with
+  | some e => owns e.obj
+  | none => []
+
+/-- the collector while the release loop runs -/
+structure RState where
+  heap : Heap                     -- the registry
+  pending : List (Option Addr)    -- `gc->freelist[0 .. freenum)`; `none` = an item struck by `GC_Rem_Ptr` or already released
+  finalised : List Addr           -- every `dealloc(destruct(·))`, newest first
+  exhausted : Bool                -- the nesting budget ran out (never, `C01_release_bounded`)
+
+/-- `gc->freelist[i] = NULL` for the first slot that holds `x` -/
+def strike (x : Addr) : List (Option Addr) → List (Option Addr)
+  | [] => []
+  | o :: p => if o = some x then none :: p else o :: strike x p
+
+/-- **`GC_Rem_Ptr(gc, v)`** (what `del(v)` comes to): on the free list → struck and finalised; in the registry → erased and
+    finalised; otherwise nothing.  `fin` is `dealloc(destruct(·))`. -/
+def remPtr (fin : RState → Addr → RState) (st : RState) (v : Word) : RState :=
+  if st.pending.contains (some v) then fin { st with pending := strike v st.pending } v
+  else if (st.heap.lookup v).isSome then fin { st with heap := st.heap.remove v } v
+  else st
+
+/-- **`dealloc(destruct(a))`**: the destructor `del`s what the object owns (contents as they were when the sweep began: `h0`).
+    `fuel` bounds the nesting of destructors; every nested call is preceded by the removal of one item from the free list or
+    of one entry from the registry. -/
+def finaliseAt (h0 : Heap) : Nat → RState → Addr → RState
+  | 0, st, _ => { st with exhausted := true }
+  | fuel + 1, st, a => (h0.ownsAt a).foldl (remPtr (finaliseAt h0 fuel)) { st with finalised := a :: st.finalised }
+
+/-- `for (i = 0; i < freenum; i++) { item = freelist[i]; if (item) { freelist[i] = NULL; dealloc(destruct(item)); } }`
+    (the items of the free list are distinct: they were distinct registry keys) -/
+def releaseLoop (h0 : Heap) (fuel : Nat) : List Addr → RState → RState
+  | [], st => st
+  | a :: rest, st =>
+    if st.pending.contains (some a) then
+      releaseLoop h0 fuel rest (finaliseAt h0 fuel { st with pending := strike a st.pending } a)
+    else releaseLoop h0 fuel rest st
+
+/-- the release loop on the registry `h1` and the pending list the first two phases of the sweep produced from `h0` -/
+def release (h0 h1 : Heap) (pending : List Addr) : RState :=
+  releaseLoop h0 (pending.length + h1.regs.length + 1) pending
+    { heap := h1, pending := pending.map some, finalised := [], exhausted := false }
+
+/-- the result of one whole collection -/
+structure Collected where
+  heap : Heap               -- the registry afterwards
+  pending : List Addr       -- what the sweep put on the free list
+  finalised : List Addr     -- what the release loop finalised and freed
+  exhausted : Bool
+
+/-- **one whole collection**: `GC_Mark` from the bits `m0`, `GC_Sweep` including its release loop -/
+def collectAll {σ : Type} (S : MarkSet σ) (c : Cfg) (h : Heap) (thread : Obj) (stack : List Word) (m0 : σ) : Collected :=
+  let r := collectFrom S c h thread stack m0
+  let st := release h r.1 r.2
+  { heap := st.heap, pending := r.2, finalised := st.finalised, exhausted := st.exhausted }
+
+/-- does an entry that the sweep (with the final bits `m`) puts on the free list own an entry that stays registered?
+    (a garbage Box — or a garbage container with an embedded Box — whose target is marked or root-registered) -/
+def ownsSurvivor {σ : Type} (S : MarkSet σ) (h : Heap) (m : σ) : Bool :=
+  h.regs.any fun b => sweeps S h m b && (h.ownsAt b).any fun v => ((sweep S h m).1.lookup v).isSome
+
+/-- **Box's ownership contract, as far as a collection depends on it**: no object that stays registered (reachable from the
+    roots, or root-registered) is owned by an object the sweep frees -/
+def boxExclusive {σ : Type} (S : MarkSet σ) (c : Cfg) (h : Heap) (thread : Obj) (stack : List Word) (m0 : σ) : Bool :=
+  !ownsSurvivor S h (gcMarkFrom S c h thread stack m0)
+
+/-! ### histories with the mark bits in the state -/
+
+/-- the collector and the mutator between two operations; `stale` = the entries whose `marked` field is set -/
+structure GState where
+  heap : Heap
+  thread : Obj
+  stack : List Word
+  stale : List Addr
+
+inductive GOp where
+  | base (op : HOp)    -- a mutator operation, or (`HOp.collect`) a collection that runs to completion
+  | raise (k : Nat)    -- a collection whose mark phase is left by an exception after `k` marking events: no sweep
+  | rehash             -- `GC_Rehash` (`GC_Resize_More` in `GC_Set`, `GC_Resize_Less` in `GC_Rem`): every entry re-inserted unmarked
+
+def GOp.ok : GOp → Prop
+  | .base op => op.ok
+  | _ => True
+
+/-- no exception leaves a mark phase -/
+def GOp.completes : GOp → Bool
+  | .raise _ => false
+  | _ => true
+
+/-- one completed collection of a history -/
+structure GEvent where
+  before : GState
+  started : List Addr       -- the entries whose bit was set when the mark phase began
+  pending : List Addr
+  finalised : List Addr
+  after : Heap
+
+def GState.hstate (s : GState) : HState := { heap := s.heap, thread := s.thread, stack := s.stack }
+
+/-- `clearFirst`: does `GC_Mark` clear every mark bit before it starts?  (CelloGen.GcMark.markClearsFirst for the source as
+    it is; `true` is the proposed repair) -/
+def GState.step {σ : Type} (S : MarkSet σ) (c : Cfg) (clearFirst : Bool) (s : GState) : GOp → GState × Option GEvent
+  | .base .collect =>
+    let started := if clearFirst then [] else s.stale
+    let r := collectAll S c s.heap s.thread s.stack (seed S started)
+    -- the second loop of GC_Sweep clears every bit
+    ({ s with heap := r.heap, stale := [] }, some ⟨s, started, r.pending, r.finalised, r.heap⟩)
+  | .base op =>
+    let t := (s.hstate.step S c op).1
+    -- a mark bit lives in its entry: it goes with the entry (`del`), and a new entry starts unmarked
+    ({ heap := t.heap, thread := t.thread, stack := t.stack,
+       stale := s.stale.filter fun a => (s.heap.lookup a).isSome && (t.heap.lookup a).isSome }, none)
+  | .raise k =>
+    let started := if clearFirst then [] else s.stale
+    ({ s with stale := (markEvents c s.heap s.thread s.stack started).take k ++ started }, none)
+  | .rehash => ({ s with stale := [] }, none)
+
+def GState.run {σ : Type} (S : MarkSet σ) (c : Cfg) (clearFirst : Bool) : List GOp → GState → GState × List GEvent
+  | [], s => (s, [])
+  | op :: ops, s =>
+    let (s1, ev) := s.step S c clearFirst op
+    let (s2, evs) := GState.run S c clearFirst ops s1
+    (s2, match ev with | some e => e :: evs | none => evs)
+
+/-- reachability along entries whose mark bit is clear: what a mark phase that starts with the bits `marked` set can still find -/
+inductive ReachableUnmarked (c : Cfg) (h : Heap) (marked : Addr → Bool) (roots : List Word) : Addr → Prop
+  | root {a} : a ∈ roots → (h.lookup a).isSome = true → marked a = false → ReachableUnmarked c h marked roots a
+  | step {a b} : ReachableUnmarked c h marked roots a → Points c h a b → (h.lookup b).isSome = true → marked b = false →
+      ReachableUnmarked c h marked roots b
+
 end Cello.Heap
